@@ -2,6 +2,7 @@
   The mutual induction behind the C06 round-trip theorems.
 -/
 import PycommProofs.RTLemmas
+import PycommProofs.RTExt
 namespace Pycomm.RT
 open Pycomm
 
@@ -74,7 +75,7 @@ theorem full : (t : Ty) → (v : PyVal) → Canon t v → Full t v
   | .lreal, v, h => (leaf_lreal v h).full (by simp [PosWidth])
   | .dateAndTime, v, h => (leaf_dt v h).full (by simp [PosWidth])
   | .str lenK enc, v, h => (leaf_str lenK enc v h).full (by simp [PosWidth])
-  | .stringN _, _, h => by simp [Canon] at h
+  | .stringN c, v, h => (rtx_leaf_stringN c v h).full (by simp [PosWidth])
   | .stringI, _, h => by simp [Canon] at h
   | .bits k, v, h => (leaf_bits k v h).full (by simp [PosWidth])
   | .nbytes n, v, h => (leaf_nbytes n v h).full (by
@@ -128,7 +129,7 @@ theorem full : (t : Ty) → (v : PyVal) → Canon t v → Full t v
     · simpa only [PosWidth] using hnp
   | .fixedStr size lenK, v, h => (leaf_fixedStr size lenK v h).full (by simp [PosWidth])
   | .structTag _ _ _ _, _, h => by simp [Canon] at h
-  | .ipAddr, _, h => by simp [Canon] at h
+  | .ipAddr, v, h => (rtx_leaf_ip v h).full (by simp [PosWidth])
 theorem fullm : (ms : Members) → (kvs : List (Name × PyVal)) → CanonMembers ms kvs →
     ∃ bs, encodeMembersSeq ms (kvs.map (·.2)) = .ok bs ∧
       (∀ rest acc, (∀ a ∈ acc, some a.1 ∉ ms.names) →
